@@ -48,6 +48,10 @@ pub mod shims {
     #[verifier::external_body]
     pub fn hooks_touching(v: &Vec<Hook>, s: &std::collections::HashSet<crate::config::HookType>) -> (r: Vec<Hook>)
         ensures r@ == v@.filter(|h: Hook| touches(h, hset(*s))) { unimplemented!() }
+    // the same without the negation: the hooks that have no type in SET
+    #[verifier::external_body]
+    pub fn hooks_not_touching(v: &Vec<Hook>, s: &std::collections::HashSet<crate::config::HookType>) -> (r: Vec<Hook>)
+        ensures r@ == v@.filter(|h: Hook| !touches(h, hset(*s))) { unimplemented!() }
     pub struct Account { pub x: Ghost<int>, pub endpoints: Ghost<Set<Seq<char>>> }
     impl Account {
         #[verifier::external_body]
